@@ -535,6 +535,12 @@ class SocksRun(object):
 
     def check_step(self):
         """C05: relayed bytes are exactly the delivered bytes that follow the success reply"""
+        if self.peer is not None and self.conn is not None:
+            d = self.conn.total_s2c_delivered
+            if d == 1:
+                self.sim.probe('method-reply-split')
+            if self.peer.reply_end is not None and 2 < d < self.peer.reply_end:
+                self.sim.probe('reply-split')
         if self.prop != 'C05' or self.peer is None or self.conn is None:
             return
         sim = self.sim
